@@ -1062,8 +1062,27 @@ func (e *engine) flow() {
 			break
 		}
 	}
-	time.Sleep(12 * time.Second) // past any notification interval and two rounds of the slowest callback
+	time.Sleep(3 * time.Second) // past any notification interval
 	vx.Wait()
+	// a prefix watcher queues one notification per change and a slow callback works them off one by one:
+	// wait until no watcher has been called for longer than the slowest callback takes
+	for round := 0; round < 400; round++ {
+		before := 0
+		for _, w := range c.Watches {
+			_, calls, _ := w.Snapshot()
+			before += calls
+		}
+		time.Sleep(3 * time.Second)
+		vx.Wait()
+		after := 0
+		for _, w := range c.Watches {
+			_, calls, _ := w.Snapshot()
+			after += calls
+		}
+		if after == before {
+			break
+		}
+	}
 	want := "ring[" + model.CanonDescN(wantR) + "] pring[" + model.CanonPDescN(wantP) + "]"
 	var firstVis string
 	for i := 0; i < c.N; i++ {
